@@ -1604,6 +1604,8 @@ func c20Gen(g *Gen) {
 		proc       bool
 	}
 	var seqs []seqCase
+	// the smallest one first: a big project, then a small one, into the same target
+	seqs = append(seqs, seqCase{"P:9:0:4", 0, 9, 0, 0, false})
 	pairs := [][2]int{{4, 0}, {0, 0}, {0, 4}, {5, 1}, {3, 2}, {2, 3}, {4, 5}}
 	sizes := [][2]int{{5000, 100}, {100, 5000}, {f.bufSize, f.bufSize}, {0, 9000}, {9000, 0}}
 	for pi, pr := range pairs {
